@@ -420,7 +420,7 @@ def native_ok(cls, v, path='arg', width=True):
         if not isinstance(v, int):
             return bad()
         if width and not cls.validate_native(cls, int(v)):           # the declared width (hardware bounds of the class itself)
-            return bad()
+            return (path, decl_name(cls), 'int-out-of-width:' + repr(v)[:60])
         return None
     if issubclass(cls, P.Double):
         return None if isinstance(v, (float, int)) and not isinstance(v, bool) or type(v) is float else bad()
@@ -651,7 +651,7 @@ def g_xn(e, std=None):
         return 'XO'
     q = etree.QName(e)
     atts = []
-    for k, v in sorted(e.attrib.items()):
+    for k, v in e.attrib.items():          # document order: the loops over attributes stop at the first failure
         qa = etree.QName(k)
         atts.append('(%s, %s, %s)' % (gtext(qa.namespace or ''), gtext(qa.localname), gtext(v)))
     nm = std[1] if std and dict(e.nsmap) == std[0] else g_nsmap(e.nsmap)
@@ -930,7 +930,7 @@ def oracle_xml(check, tier):
                     stat('Soap11 validator=%s: header %s' % (val, 'delivered' if cap.headers[-1] is not None else 'absent'))
                     bad = native_ok(classes[hcid], cap.headers[-1], 'header', width=val is not None)
                     if bad:
-                        check.fail(xml_key('header', pname, val, hmuts, bad),
+                        check.fail(xml_key('header', pname + '-header', val, hmuts, bad),
                                    'Soap11(validator=%r): ctx.in_header is %s where %s is declared (at %s)' % (val, bad[2], bad[1], bad[0]), rp)
 
 
